@@ -321,6 +321,22 @@ def run_sensitivity(res, cfg):
             res.assumptions.append("sensitivity suite: seeded change %s no longer applies to the tree (skipped)" % o["seed"])
 
 
+def prelude_inventory():
+    """every unchecked assumption of the stand-in prelude and of the lemma files (axioms), by name"""
+    import glob
+    inv = []
+    for f in sorted(glob.glob(os.path.join(VERIF, "spec", "prelude", "*.rs")) + glob.glob(os.path.join(VERIF, "spec", "lemmas", "*.rs"))):
+        text = open(f).read()
+        rel = os.path.relpath(f, VERIF)
+        for m in re.finditer(r"assume_specification(?:<[^\[]*>)?\s*\[\s*(.+?)\s*\]\s*\(", text):
+            inv.append("%s: assume_specification %s" % (rel, " ".join(m.group(1).split())))
+        for m in re.finditer(r"#\[verifier::external_body\]\s*(?:#\[[^\]]*\]\s*)*(?:pub\s+)?(?:broadcast\s+)?(proof\s+)?fn\s+(\w+)", text):
+            inv.append("%s: %s %s" % (rel, "axiom" if m.group(1) else "external_body fn", m.group(2)))
+        for m in re.finditer(r"uninterp spec fn\s+(\w+)", text):
+            inv.append("%s: uninterpreted %s" % (rel, m.group(1)))
+    return sorted(set(inv))
+
+
 def scan_assumptions(text):
     counts = {}
     for kw in ("assume(", "admit(", "#[verifier::external_body]", "assume_specification", "#[verifier::external]", "uninterp spec fn"):
@@ -342,7 +358,12 @@ def decide(res, cfg):
     # lost obligations
     demoted = set(d["fn"] for d in getattr(res, "demoted", []))
     lost = sorted(b for b in base if b not in now and b.split("#")[0] not in demoted)
+    relevant = set(o["id"].replace("fast:", "").split("#")[0] for o in res.obligations) | set(b.replace("fast:", "").split("#")[0] for b in base_all)
     for d in getattr(res, "demoted", []):
+        if d["fn"] not in relevant:
+            # the function carries no obligation of this property: its leaving the fragment does not affect this check
+            res.assumptions.append("function %s left the fragment Verus reads (%s); it carries no obligation of %s" % (d["fn"], d["reason"][:80], pid))
+            continue
         covered = [o for o in res.obligations if o["engine"] in ("kani", "native-search") and d["fn"] in (o.get("covers") or [])]
         only_search = covered and all(o["engine"] == "native-search" for o in covered)
         if covered and all(o["status"] in ("discharged", "bounded") for o in covered):
@@ -434,7 +455,7 @@ def write_evidence(res, cfg, rc):
         "known_findings": res.known,
         "undecided": res.undecided,
         "checker_cmd": res.log.get("verus_cmd", "") + (" ; " + res.log.get("kani_cmd", "") if res.log.get("kani_cmd") else ""),
-        "trusted_base": sorted(set(res.trusted + cfg.get("trusted_base", []))),
+        "trusted_base": sorted(set(res.trusted + cfg.get("trusted_base", []))) + prelude_inventory(),
         "functions_under_contract": res.functions,
         "samples": [{"obligation": o["id"], "engine": o["engine"], "contract": o.get("text", ""), "status": o["status"]} for o in res.obligations[:12]],
         "by_engine": {e: {"obligations": sum(1 for o in res.obligations if o["engine"] == e),
